@@ -173,7 +173,7 @@ func genC19(r *rand.Rand, n int, emit func(Op)) {
 			b.WriteString("[media]\n")
 			hook := []any{}
 			for k := r.Intn(4); k > 0; k-- {
-				hook = append(hook, pick(r, []string{"xdg-open", "%url", "mpv", "--", ""}))
+				hook = append(hook, pick(r, []string{"xdg-open", "%url", "mpv", "--", "", " %url", "%mimetype ", "%s\n", " ", "\tmpv", "--title= "}))
 			}
 			raw["hook"] = hook
 			parts := []string{}
